@@ -1311,6 +1311,8 @@ def _sep_of(facts, g, argvals, depth=0):
     joins = [x for x in fb.walk(g.body) if x.get("k") == "mcall" and x["name"] == "join" and x["args"]]
     if len(joins) == 1:
         a = _block_value(joins[0]["args"][0])
+        from .common import through_lets as _tl
+        a = _block_value(_tl(ctx(g), a)) if a is not None else a        # `let separator = if sparce { "\n" } else { "" }; .. .join(separator)`
         if _lit_str(a) is not None:
             return _lit_str(a)
         if a is not None and a.get("k") == "if" and a["c"].get("k") == "path" and a["c"].get("res") == "local" and a["c"].get("id") in pidx:
